@@ -139,6 +139,14 @@ func (exec *Executor) getArrayIndex(
 	found := newList()
 	res, err := exec.executeItem(ctx, node, value, found)
 	if res == statusFailed {
+		if err == nil {
+			// The error was suppressed; report the failure as a suppressible
+			// error so that the caller does not mistake it for index 0.
+			err = fmt.Errorf(
+				"%w: jsonpath array subscript is not a single numeric value",
+				ErrVerbose,
+			)
+		}
 		return 0, err
 	}
 
